@@ -164,16 +164,28 @@ SURVIVED_FIRST = {
     "C19-16": "the log directory was a real directory that came back; now also a symbolic link that comes back pointing at a new directory",
     "C20-15": "killed by the C02 check (asynchronous root logger that was never started: the call hangs); listed under also_checks",
     "C20-16": "killed by the C13 check (time-lines west of UTC with a maximum age of 1-3 h); listed under also_checks",
+    # round 9
+    "C01-17": "user level codes lay between -1 and 1200; FLOOR (MinInt32), DEEP (-2e9) and CEIL (MaxInt32) added as bounds and event levels (the model's 'no next bound' sentinel was -1 and became a flag)",
+    "C02-17": "NOT KILLED, outside the domain: the change makes the empty-stem wildcard '_*' serve tags with a leading underscore; whether the empty stem is 'a proper underscore-delimited prefix' is not pinned down by the property text (DESIGN section 6, carve-out of C02)",
+    "C03-17": "every call built its field slice afresh; in half the cases each event's slice is now prepared before the goroutines start and spread into the call in both phases",
+    "C06-17": "'Block waits' was judged over 30 ms; a stall of 4 s (quick) / 15 s (thorough) with producers submitting more than the buffer holds added (TestC06_BlockLongStall)",
+    "C07-17": "the harness copied each line at once and bufferCap was always 10KB; the line is now held un-copied while a later event is formatted, with bufferCap drawn from 64 B to 10 KB",
+    "C08-17": "as C07-17 (the same change to both layouts): both lines are held un-copied while later events are formatted, bufferCap drawn from 64 B to 10 KB",
+    "C12-17": "no handle for the reserved name 'root' was written through; TestC12_Write now configures the root logger as a fifth named logger of any kind (first killed by the C01/C02/C05/C16 checks, which stay under also_checks)",
+    "C13-17": "maximum ages were 1, 3 and 1000 h; 600000 h and 2000000 h ('keep for centuries') added to the time-lines",
+    "C15-17": "the only ill-typed level range was an unknown name; 'INFO~', '~ERROR', '~', 'INFO~LOUD', 'INFO-ERROR' ... added to the injected faults",
+    "C16-17": "handle writes always carried a payload; a third of them now follow an empty (nil / zero-length) write through the same handle (first killed by the C12 and C04 checks, which stay under also_checks)",
+    "C20-17": "killed by the C13 check (stop/start within one second on the same directory appends); listed under also_checks - the C20 children are not restarted on a used directory",
 }
 
 _first = None
 
 def first_attempt_survived(sid):
-    """Rounds 4 to 8 keep the raw first-attempt output; earlier rounds are listed in SURVIVED_FIRST only if they survived."""
+    """Rounds 4 to 9 keep the raw first-attempt output; earlier rounds are listed in SURVIVED_FIRST only if they survived."""
     global _first
     if _first is None:
         _first = {}
-        for f in ("ROUND4_first_attempt.jsonl", "ROUND5_first_attempt.jsonl", "ROUND6_first_attempt.jsonl", "ROUND7_first_attempt.jsonl", "ROUND8_first_attempt.jsonl"):
+        for f in ("ROUND4_first_attempt.jsonl", "ROUND5_first_attempt.jsonl", "ROUND6_first_attempt.jsonl", "ROUND7_first_attempt.jsonl", "ROUND8_first_attempt.jsonl", "ROUND9_first_attempt.jsonl"):
             fp = os.path.join(ROOT, "seeded", f)
             if os.path.exists(fp):
                 for line in open(fp):
